@@ -160,15 +160,20 @@ theorem no_stale_dv_hides_new_rows :
      | .up s => s.abs "a"
      | .dead _ => none) = some (tA, [[.i32 5], [.i32 6]]) := by decide
 
-/-- what is left of that family: delete-vector FILES are never unlinked, so once both id counters
-have restarted a (table, row-set, DV) triple is handed out again and `create_new` fails.  The
-history is rejected by `deleteGuard` (and the engine's DELETE fails with "File exists"). -/
+/-- the history of the former finding `delete:dv-file-reused-after-reopen` (delete-vector files were
+never unlinked, so once both id counters had restarted a (table, row-set, DV) triple was handed out
+again and `create_new` failed; since the boot-time vacuum of `dv/` the file is gone by then) -/
 def dvFileWitness : List Op :=
   [.create tA, .insert "a" [[[.i32 1], [.i32 2]]], .insert "a" [[[.i32 3]]],
    .delete "a" (fun r => r != [.i32 3]), .delete "a" (fun _ => true), .compact [(0, [0, 1])], .reopen, .reopen,
    .insert "a" [[[.i32 5]]], .delete "a" (fun _ => true)]
 
-theorem dv_file_reuse_witness : ¬ GoodHist Store.init dvFileWitness := by decide
+/-- regression: that history is a good history and ends with the table empty -/
+theorem dv_file_reuse_regression :
+    GoodHist Store.init dvFileWitness ∧
+    (match run (.up Store.init) dvFileWitness with
+     | .up s => s.abs "a"
+     | .dead _ => none) = some (tA, []) := by decide
 
 /-! ## Histories (the invariant behind `ReopenHyp`) -/
 
@@ -176,9 +181,8 @@ theorem dv_file_reuse_witness : ¬ GoodHist Store.init dvFileWitness := by decid
 to the live catalog / tables / row-sets / DVs, the files exist, ids are fresh), by induction over
 histories of CREATE/DROP TABLE, INSERT (any partition into row-sets), DELETE, compaction passes
 (any plan), vacuum passes and shutdown+reopen cycles in any order.  `GoodHist` evaluates `Guard` in
-the state each statement is issued in: no view/index creation, no DELETE whose delete-vector file
-already exists (DV files are never unlinked), no NULL into NOT NULL.  (The DROP and reopen guards
-of the first version are gone with repository commit 5071ff5.) -/
+the state each statement is issued in: no view/index creation, no NULL into NOT NULL.  (The DROP,
+reopen and DELETE guards of earlier versions are gone with the repository fixes.) -/
 theorem history_reaches_invariant (h : List Op) (g : GoodHist Store.init h) :
     ∃ s, run (.up Store.init) h = .up s ∧ Inv s :=
   hist_inv h Store.init inv_init g
